@@ -94,10 +94,17 @@ func (a *SymApp) OnChanCloseConfirm(ctx sdk.Context, portID, channelID string) e
 func (a *SymApp) OnRecvPacket(ctx sdk.Context, channelVersion string, packet channeltypes.Packet, relayer sdk.AccAddress) exported.Acknowledgement {
 	verif.LogCall("OnRecvPacket", packet.DestinationPort, packet.DestinationChannel, packet.Sequence, packet.Data)
 	a.effects(ctx, "app.recv")
-	if verif.Bool("app.recv.async") {
+	async, ok, bz := verif.Bool("app.recv.async"), verif.Bool("app.recv.success"), verif.Bytes("app.recv.ack")
+	if async {
+		verif.LogCall("OnRecvPacket.result", uint64(2), bz)
 		return nil
 	}
-	return SymAck{Ok: verif.Bool("app.recv.success"), Bz: verif.Bytes("app.recv.ack")}
+	if ok {
+		verif.LogCall("OnRecvPacket.result", uint64(0), bz)
+	} else {
+		verif.LogCall("OnRecvPacket.result", uint64(1), bz)
+	}
+	return SymAck{Ok: ok, Bz: bz}
 }
 
 func (a *SymApp) OnAcknowledgementPacket(ctx sdk.Context, channelVersion string, packet channeltypes.Packet, acknowledgement []byte, relayer sdk.AccAddress) error {
